@@ -1166,12 +1166,12 @@ class Grid:
             elif (pos == "center" and ax_to == "left") or (
                 pos == "right" and ax_to == "center"
             ):
-                data = data.isel(**{dim: slice(0, -1)})
+                data = data.isel({dim: slice(0, -1)})
                 ax_boundary_width = {ax.name: (1, 0)}
             elif (pos == "center" and ax_to == "inner") or (
                 pos == "outer" and ax_to == "center"
             ):
-                data = data.isel(**{dim: slice(0, -1)})
+                data = data.isel({dim: slice(0, -1)})
                 ax_boundary_width = {ax.name: (0, 0)}
             elif (pos == "center" and ax_to == "outer") or (
                 pos == "inner" and ax_to == "center"
@@ -1193,7 +1193,7 @@ class Grid:
 
             # get dim with position to
             new_dim_name = ax.coords[ax_to]
-            renamed = padded.rename(**{dim: new_dim_name})
+            renamed = padded.rename({dim: new_dim_name})
 
             # drop all coords to avoid conflicts when attaching new ones
             coordless = renamed.drop_vars(renamed.coords)
